@@ -175,6 +175,7 @@ type Exec struct {
 	freshRefs map[string]bool            // during loop discovery: reference terms allocated inside the loop
 	loopRefs  map[string][]Term          // result of the last discovery: per heap array, the loop-invariant refs written
 	nameSeen     map[string]int
+	loopBase     int // closures inlined into their parent: loop ordinals are offset by 100*closure index
 	lastIter     string // state variable of the visited set of the most recent map iteration
 	lastIterSort string
 }
@@ -923,7 +924,7 @@ func (x *Exec) enterBlock(b *ssa.BasicBlock, within map[*ssa.BasicBlock]bool) bo
 			x.specError(inv, err)
 			continue
 		}
-		x.oblige("invariant", fmt.Sprintf("invariant:%d:%s:entry", ord, inv.Name), entryReach, t, inv.Src, b.Instrs[0].Pos())
+		x.oblige("invariant", fmt.Sprintf("invariant:%d:%s:entry", x.loopBase+ord, inv.Name), entryReach, t, inv.Src, b.Instrs[0].Pos())
 	}
 	// 2. havoc
 	mods := x.loopModified(b, ord)
@@ -954,7 +955,7 @@ func (x *Exec) enterBlock(b *ssa.BasicBlock, within map[*ssa.BasicBlock]bool) bo
 	}
 	// 3. assume loop-level definitional axioms, then the invariants
 	if x.c != nil {
-		for _, ax := range x.c.LoopAxioms[ord] {
+		for _, ax := range x.c.LoopAxioms[x.loopBase+ord] {
 			t, err := x.evalSpec(ax.E, x.specEnvAt(b, nil))
 			if err != nil {
 				x.specError(ax, err)
@@ -992,7 +993,7 @@ func (x *Exec) loopInvs(ord int) []NamedExpr {
 	if x.c == nil {
 		return nil
 	}
-	invs := x.c.Loops[ord]
+	invs := x.c.Loops[x.loopBase+ord]
 	// generated invariant for 'for i := range slice' loops: the hidden index starts at -1
 	for h, o := range x.headers {
 		if o != ord {
@@ -1015,10 +1016,10 @@ func (x *Exec) loopInvs(ord int) []NamedExpr {
 // throw-away symbolic execution of the body (nothing it emits is kept).
 func (x *Exec) loopModified(h *ssa.BasicBlock, ord int) []string {
 	x.loopRefs = nil
-	if x.c != nil && len(x.c.LoopMods[ord]) > 0 {
+	if x.c != nil && len(x.c.LoopMods[x.loopBase+ord]) > 0 {
 		var out []string
 		for n := range x.svSort {
-			for _, p := range x.c.LoopMods[ord] {
+			for _, p := range x.c.LoopMods[x.loopBase+ord] {
 				if strings.HasPrefix(n, p) {
 					out = append(out, n)
 				}
@@ -1188,7 +1189,7 @@ func (x *Exec) pushEdge(to *ssa.BasicBlock, cond Term, within map[*ssa.BasicBloc
 				x.specError(inv, err)
 				continue
 			}
-			x.oblige("invariant", fmt.Sprintf("invariant:%d:%s:preserved", ord, inv.Name), cond, t, inv.Src, from.Instrs[len(from.Instrs)-1].Pos())
+			x.oblige("invariant", fmt.Sprintf("invariant:%d:%s:preserved", x.loopBase+ord, inv.Name), cond, t, inv.Src, from.Instrs[len(from.Instrs)-1].Pos())
 		}
 		for phi, v := range saved {
 			x.vals[phi] = v
